@@ -413,7 +413,7 @@ class IoWorld(World):
             # process reads with at that moment: refused, or read as it can be -- never a change of the format
             return {"op": "parse_short", "text": r.choice(["2020-06-30T23:59", "30/06/2020 23:59", "2020-06-30 23:59",
                                                            "20200630235", "23:59 30-06-2020", "06/30/2020 23:5"])}
-        return {"op": "query_refused", "track": self._gen_track(r, "ENU")}
+        return {"op": "query_refused", "track": self._gen_track(r, "ENU"), "summary": r.choice([None, "empty", "full"])}
 
     def _gen_clock(self, r, s, q):
         if r.random() < 0.5:
@@ -631,6 +631,17 @@ class IoWorld(World):
             self.fail("C13", "csv.read.raised", "Track.query ended in %r" % (exc,))
             return "raised"
         self.probe("query_refused" if exc is not None else "query_not_refused")
+        if st.get("summary"):
+            # ... and one that prints times: Track.summary(), of this track or of one without observations
+            import io as _io
+            import contextlib
+            from tracklib.core import Track
+            with contextlib.redirect_stdout(_io.StringIO()):
+                _, exc2 = self.call((Track() if st["summary"] == "empty" else tr).summary)
+            if exc2 is not None and not isinstance(exc2, Exception):
+                self.fail("C13", "csv.read.raised", "Track.summary ended in %r" % (exc2,))
+                return "raised"
+            self.probe("summary_%s" % st["summary"])
         self.observed(None if exc is None else type(exc).__name__)
         return "rejected" if exc is not None else "ok"
 
